@@ -367,6 +367,68 @@ func c21(p *core.Program, r *core.Report) {
 		return true
 	})
 	r.Floor("C21/R3 fragsDiff calls in fragSources", nDiff, 1)
+	// every node of the target cluster gets its diff: each iteration of the loop over the target's
+	// fragments stores, under the loop's key, fragsDiff(..) or all of the node's target fragments
+	ast.Inspect(fd.Body, func(n ast.Node) bool {
+		rs, ok := n.(*ast.RangeStmt)
+		if !ok || tFrags == nil || objOf(rs.X) != tFrags || diffsMap == nil {
+			return true
+		}
+		key, val := objOf(rs.Key), objOf(rs.Value)
+		const bStored flow.State = 1
+		var missing []string
+		var wrong []string
+		h := flow.Hooks{Info: info}
+		h.Atom = func(nd ast.Node, s flow.State) []flow.State {
+			as, ok := nd.(*ast.AssignStmt)
+			if !ok || len(as.Lhs) != 1 || len(as.Rhs) != 1 {
+				return []flow.State{s}
+			}
+			ix, ok := ast.Unparen(as.Lhs[0]).(*ast.IndexExpr)
+			if !ok || objOf(ix.X) != diffsMap {
+				return []flow.State{s}
+			}
+			good := false
+			if objOf(ix.Index) == key {
+				if c, ok := ast.Unparen(as.Rhs[0]).(*ast.CallExpr); ok {
+					if g := core.CalleeOf(info, c); g != nil && g.Name() == "fragsDiff" {
+						good = true
+					}
+				}
+				if objOf(as.Rhs[0]) == val && val != nil {
+					good = true
+				}
+			}
+			if good {
+				return []flow.State{s | bStored}
+			}
+			wrong = append(wrong, p.Pos(as.Pos()))
+			return []flow.State{s}
+		}
+		h.Return = func(ret *ast.ReturnStmt, s flow.State) {
+			if ret != nil && len(ret.Results) > 0 {
+				return // leaves fragSources
+			}
+			if s&bStored == 0 {
+				pos := p.Pos(rs.Body.End())
+				if ret != nil {
+					pos = p.Pos(ret.Pos())
+				}
+				missing = append(missing, pos)
+			}
+		}
+		it := flow.Run(h, c13IterationBody(rs.Body), 0)
+		c3 := "(*cluster).fragSources: every target node gets its diff"
+		switch {
+		case it.Unsupported != "":
+			r.Undecide("R3", c3, p.Pos(rs.Pos()), it.Unsupported)
+		case len(wrong) > 0 || len(missing) > 0:
+			r.Violate("R3", c3, p.Pos(rs.Pos()), "an iteration over the target cluster's nodes stores something other than fragsDiff(target, old) or the node's target fragments as its diff ("+strings.Join(dedupe(append(wrong, missing...)), ", ")+"): fragments that node newly owns get no source, and the resize still reports success")
+		default:
+			r.HoldAt("R3", c3, p.Pos(rs.Pos()), "every iteration stores fragsDiff(..) or all target fragments under the node's id")
+		}
+		return true
+	})
 	// the loop over diffs: every iteration of the inner loop appends or errors
 	nPlan := 0
 	ast.Inspect(fd.Body, func(n ast.Node) bool {
